@@ -5,8 +5,22 @@
    offset, any year in Z), every exact duration (components of either sign). *)
 From Coq Require Import QArith.
 From Iso Require Import Proofs.Tac Spec.Cal Spec.Instant Model.Num Model.Duration Model.TimePoint
-  Proofs.TickSpec Proofs.AddSpec.
+  Proofs.TickSpec Proofs.AddSpec Proofs.TablesOk.
 Open Scope Z_scope.
+
+(* the unit sizes and month tables the carries are written with are the ones class Calendar declares on this run *)
+Theorem C01_constants :
+  gen.CalTables.SECONDS_IN_MINUTE = 60 /\ gen.CalTables.MINUTES_IN_HOUR = 60 /\ gen.CalTables.HOURS_IN_DAY = 24 /\
+  gen.CalTables.DAYS_IN_WEEK = 7 /\ gen.CalTables.ROUGH_DAYS_IN_MONTH = 30 /\ gen.CalTables.MAX_WEEKS_IN_YEAR = 53.
+Proof. exact Proofs.TablesOk.unit_constants_ok. Qed.
+Print Assumptions C01_constants.
+
+Theorem C01_tables : gen.CalTables.translator_ok_cal = true /\
+  gen.CalTables.DAYS_IN_MONTHS_360 = m360 /\ gen.CalTables.DAYS_IN_MONTHS_365 = m365 /\
+  gen.CalTables.DAYS_IN_MONTHS_366 = m366 /\ gen.CalTables.LEAP_YEAR_FACTOR_TRUTHS = Model.Helpers.leap_factors /\
+  forallb Proofs.TablesOk.mode_row_ok gen.CalTables.MODES = true.
+Proof. exact Proofs.TablesOk.tables_all_ok. Qed.
+Print Assumptions C01_tables.
 
 (* one application of _tick_over: same instant, normalised fields, same shape *)
 Theorem C01_tick_over : forall md p,
